@@ -103,12 +103,13 @@ def gen_chunked(rng, n, limits=False, big=False):
             alpha = b'01aF;\r\n -+x_g\r\n\r\n12'
             inp = bytes(rng.choice(alpha) for _ in range(rng.randint(0, 14)))
         sched = rng.choice(['full', 'short', 'short', 'byte'])
+        cl = rng.choice([-1, -1, 0, 1, plen, plen // 2, len(inp)])
         if sched == 'full':
-            t = bl.run_real('chunked', inp, -1, buf, mb, kind=kind, expect=expect)
+            t = bl.run_real('chunked', inp, cl, buf, mb, kind=kind, expect=expect)
         elif sched == 'byte':
-            t = bl.run_real('chunked', inp, -1, buf, mb, schedule=[1] * (len(inp) + 2), kind=kind, expect=expect)
+            t = bl.run_real('chunked', inp, cl, buf, mb, schedule=[1] * (len(inp) + 2), kind=kind, expect=expect)
         else:
-            t = bl.run_real('chunked', inp, -1, buf, mb, rng=rng, short_p=rng.choice([0.3, 1.0]), kind=kind, expect=expect)
+            t = bl.run_real('chunked', inp, cl, buf, mb, rng=rng, short_p=rng.choice([0.3, 1.0]), kind=kind, expect=expect)
         out.append(t)
     return out
 
